@@ -1,8 +1,135 @@
 import Driver.Util
-open Lean
+import Paroxy.Model.Filter
+import Paroxy.Model.Costs
+import Paroxy.Gen.CompareSpans
+open Lean Paroxy Paroxy.Filter
 
 namespace Driver.C04
 
-def handlers : List (String × Handler) := []
+/-- The relations as the real filter sees them: generated dictionary and table. -/
+def genRelations : Relations :=
+  { names := (resolveUpdates (Gen.table.map fun p => (p.1, p.1)) Gen.updates).getD [],
+    table := Gen.table }
+
+def codesList (j : Json) : Except String (List Codes) := do
+  let l ← strList j
+  pure (l.map codesOf)
+
+def spanOf (j : Json) : Except String Span := do
+  match ← intList j with
+  | [a, b] => pure (a, b)
+  | _ => throw "span must be [start, end]"
+
+/-- `[[key, value], …]` (arrays of pairs keep Python's dict order). -/
+def pairs (j : Json) (f : Json → Except String α) : Except String (List (Codes × α)) := do
+  let a ← j.getArr?
+  a.toList.mapM fun kv => do
+    match ← kv.getArr? with
+    | #[k, v] => do pure (codesOf (← k.getStr?), ← f v)
+    | _ => throw "expected [key, value]"
+
+def parseTaxaSpans (j : Json) : Except String TaxaSpans :=
+  pairs j fun v => do let a ← v.getArr?; a.toList.mapM spanOf
+
+def parseDB (j : Json) : Except String DB := do
+  pure {
+    programs := ← pairs (← j.getObjVal? "programs") parseTaxaSpans
+    taxa := ← pairs (← j.getObjVal? "taxa") codesList
+    importations := ← pairs (← j.getObjVal? "importations") codesList
+    exportations := ← pairs (← j.getObjVal? "exportations") codesList }
+
+def parseOracle (j : Json) : Except String Oracle := do
+  let t ← pairs (← j.getObjVal? "taxon") codesList
+  let p ← pairs (← j.getObjVal? "prog") codesList
+  pure {
+    matchTaxon := fun pat name => ((dictGet? t pat).getD []).contains name
+    matchProg := fun pat name => ((dictGet? p pat).getD []).contains name }
+
+def parseCriterion (j : Json) : Except String Criterion :=
+  match j with
+  | .str s => pure (.pattern (codesOf s))
+  | .arr #[a, b, c] => do pure (.triple (codesOf (← a.getStr?)) (codesOf (← b.getStr?)) (codesOf (← c.getStr?)))
+  | _ => throw "criterion must be a string or a triple"
+
+def parseCommand (j : Json) : Except String Filter.Command := do
+  let op ← getStr j "operation"
+  let data ← getArr j "data"
+  pure { operation := codesOf op, data := ← data.toList.mapM parseCriterion }
+
+def sortedStrs (l : List Codes) : Json :=
+  let strs := (l.map strOf).toArray.qsort (· < ·)
+  -- deduplicate
+  let dedup := strs.foldl (fun (acc : Array String) s => if acc.back? == some s then acc else acc.push s) #[]
+  Json.arr (dedup.map Json.str)
+
+def stateJson (s : State) : Json :=
+  Json.mkObj [("selected", sortedStrs s.selected), ("knowledge", sortedStrs s.knowledge),
+    ("hiddenTaxa", sortedStrs s.hiddenTaxa), ("hiddenPrograms", sortedStrs s.hiddenPrograms)]
+
+def errJson : Err → Json
+  | .valueError => Json.mkObj [("exc", "ValueError")]
+  | .keyError => Json.mkObj [("exc", "KeyError")]
+
+def ratStr (q : Rat) : String := s!"{q.num}/{q.den}"
+
+def parseStrategy (s : String) : Except String Costs.Strategy :=
+  if s == "zeno" then pure .zeno else if s == "linear" then pure .linear else throw "strategy"
+
+/-- `flt.run`: the whole `Recommendations(db).run_pipeline(cmds)` on the model: `add_imported_taxa`,
+the commands (state after each), then the assessment of the final selection. -/
+def run : Handler := fun j => do
+  let db ← parseDB (← j.getObjVal? "db")
+  let orc ← parseOracle (← j.getObjVal? "oracle")
+  let cmds ← (← getArr j "cmds").toList.mapM parseCommand
+  let strat ← parseStrategy ((j.getObjValAs? String "strategy").toOption.getD "zeno")
+  match addImported db with
+  | none => pure (Json.mkObj [("exc", "KeyError"), ("where", "add_imported_taxa")])
+  | some progs =>
+    let c : Ctx := { orc, programs := progs, taxa := db.taxa, exportations := db.exportations }
+    let st0 := initState progs
+    -- state after each command
+    let rec go (st : State) (cs : List Filter.Command) (acc : Array Json) : Except Err (State × Array Json) :=
+      match cs with
+      | [] => .ok (st, acc)
+      | cmd :: t =>
+        match runCommand c genRelations st cmd with
+        | .error e => .error e
+        | .ok st' => go st' t (acc.push (stateJson st'))
+    match go st0 cmds #[] with
+    | .error e => pure (errJson e)
+    | .ok (st, steps) =>
+      let ranking := match Costs.assess strat progs st.knowledge st.selected with
+        | none => Json.null
+        | some l => Json.arr (l.map fun (q, p) => Json.arr #[Json.str (ratStr q), Json.str (strOf p)]).toArray
+      let recs := progs.map fun (p, rec) =>
+        Json.arr #[Json.str (strOf p), sortedStrs (rec.map (·.1))]
+      pure (Json.mkObj [("final", stateJson st), ("steps", Json.arr steps), ("ranking", ranking),
+        ("records", Json.arr recs.toArray)])
+
+/-- `flt.parseOp`: the operation string of a command. -/
+def parseOp : Handler := fun j => do
+  let s ← getStr j "operation"
+  match parseOperation (codesOf s) with
+  | none => pure Json.null
+  | some (op, q) =>
+    let name := match op with | .include => "include" | .exclude => "exclude" | .impart => "impart" | .hide => "hide"
+    pure (Json.arr #[Json.str name, Json.bool q])
+
+/-- R3: the literal special case of a taxon pattern: prefix up to a word boundary. -/
+def literalMatchTaxon (pat name : Codes) : Bool :=
+  pat.isPrefixOf name &&
+    (match pat.getLast?, (name.drop pat.length).head? with
+     | some a, some b => NP.isWord a != NP.isWord b
+     | some a, none => NP.isWord a
+     | none, some b => NP.isWord b        -- empty pattern: boundary at position 0
+     | none, none => false)
+
+def literal : Handler := fun j => do
+  let pat ← getStr j "pattern"
+  let names ← strList (← j.getObjVal? "names")
+  pure (Json.arr (names.filter (fun n => literalMatchTaxon (codesOf pat) (codesOf n)) |>.map Json.str).toArray)
+
+def handlers : List (String × Handler) :=
+  [("flt.run", run), ("flt.parseOp", parseOp), ("flt.literal", literal)]
 
 end Driver.C04
